@@ -2,6 +2,7 @@ package interpreter
 
 import (
 	"fmt"
+	"slices"
 	"strings"
 
 	"github.com/ysugimoto/falco/v2/ast"
@@ -11,6 +12,13 @@ import (
 )
 
 func (i *Interpreter) resolveIncludeStatement(statements []ast.Statement, isRoot bool) ([]ast.Statement, error) {
+	return i.resolveIncludeStatementIn(statements, isRoot, nil)
+}
+
+// resolveIncludeStatementIn expands include statements; chain holds the modules being
+// expanded on the way down, so that a module including itself (directly or through
+// others) is reported instead of recursing until the stack overflows.
+func (i *Interpreter) resolveIncludeStatementIn(statements []ast.Statement, isRoot bool, chain []string) ([]ast.Statement, error) {
 	var resolved []ast.Statement
 	for _, stmt := range statements {
 		if include, ok := stmt.(*ast.IncludeStatement); ok {
@@ -22,11 +30,16 @@ func (i *Interpreter) resolveIncludeStatement(statements []ast.Statement, isRoot
 				}
 				continue
 			}
+			if slices.Contains(chain, include.Module.Value) {
+				return nil, exception.Runtime(
+					&stmt.GetMeta().Token, "recursive include of VCL module '%s'", include.Module.Value,
+				)
+			}
 			included, err := i.includeFile(include, isRoot)
 			if err != nil {
 				return nil, exception.Runtime(&stmt.GetMeta().Token, "%s", err.Error())
 			}
-			recursive, err := i.resolveIncludeStatement(included, isRoot)
+			recursive, err := i.resolveIncludeStatementIn(included, isRoot, append(chain, include.Module.Value))
 			if err != nil {
 				return nil, err
 			}
